@@ -23,7 +23,7 @@ type AppxSpec struct {
 	Sizes   []int  // payload file sizes
 	Mode    string // "stored" | "deflate" (per-64KiB-block sync-flushed deflate, as the block map requires) | "deflate-dd"
 	Names   string // "ext" (a.png, b.txt, ...), "noext" (first payload file is called LICENSE, with an Override content type), "subdir" (Assets/a.png), "upper" (A.PNG)
-	PE      bool   // the first payload file is a generated PE image called app.exe
+	NoPE    bool   // content-only package: no executable (otherwise a generated PE image app.exe is the first member)
 	NoBlock bool   // no AppxBlockMap.xml / [Content_Types].xml yet (manifest is the last member)
 }
 
@@ -33,8 +33,8 @@ func (s AppxSpec) Name() string {
 		ss = append(ss, fmt.Sprint(x))
 	}
 	n := fmt.Sprintf("appx/%s/names=%s/sizes=%s", s.Mode, s.Names, strings.Join(ss, ","))
-	if s.PE {
-		n += "/pe-payload"
+	if s.NoPE {
+		n += "/content-only"
 	}
 	if s.NoBlock {
 		n += "/no-blockmap"
@@ -134,6 +134,10 @@ func BuildAppx(s AppxSpec) []byte {
 			defaults[ext] = "application/octet-stream"
 		}
 	}
+	if !s.NoPE {
+		pe, _ := pegen.Build(pegen.Canonical())
+		addMember("app.exe", pe, s.Mode)
+	}
 	for i, sz := range s.Sizes {
 		name := fmt.Sprintf("%c.%s", 'a'+i, exts[i%len(exts)])
 		data := Content(i+1, sz)
@@ -146,10 +150,6 @@ func BuildAppx(s AppxSpec) []byte {
 			name = "Assets/" + name
 		case "upper":
 			name = strings.ToUpper(name)
-		}
-		if s.PE && i == 0 {
-			name = "app.exe"
-			data, _ = pegen.Build(pegen.Canonical())
 		}
 		addMember(name, data, s.Mode)
 	}
@@ -277,8 +277,8 @@ func CanonicalAppx() AppxSpec { return AppxSpec{Sizes: []int{500, 40}, Mode: "de
 //
 // quick: 1-3 payload files, empty file, stored / block-deflate / data
 // descriptors, a payload file without extension (Override content type), files
-// in a sub-directory, upper-case extension, an embedded PE image (goes into
-// CodeIntegrity.cat), payload of 64 KiB-1 / 64 KiB / 64 KiB+1 (block map block
+// in a sub-directory, upper-case extension, a content-only package without any PE image (no
+// CodeIntegrity.cat needed), payload of 64 KiB-1 / 64 KiB / 64 KiB+1 (block map block
 // boundary) and 1 MiB+1; lenient: no block map / content types yet.
 // thorough: mode x names x sizes over {0,1,300} x 1..3 files and the ladder.
 func AppxShapes(thorough bool) []shape.Shape {
@@ -294,7 +294,8 @@ func AppxShapes(thorough bool) []shape.Shape {
 		mkAppx(with(func(s *AppxSpec) { s.Names = "noext" }), "payload-name-without-extension", true),
 		mkAppx(with(func(s *AppxSpec) { s.Names = "subdir" }), "payload-in-subdirectory", true),
 		mkAppx(with(func(s *AppxSpec) { s.Names = "upper" }), "payload-uppercase-extension", true),
-		mkAppx(with(func(s *AppxSpec) { s.PE = true }), "pe-payload", true),
+		mkAppx(with(func(s *AppxSpec) { s.NoPE = true }), "content-only-no-executable", true),
+		mkAppx(with(func(s *AppxSpec) { s.NoPE = true; s.Sizes = []int{7}; s.Mode = "stored" }), "content-only-no-executable", true),
 		mkAppx(with(func(s *AppxSpec) { s.Sizes = []int{65535, 65536, 65537}; s.Mode = "stored" }), "size-64KiB-block-boundary-stored", true),
 		mkAppx(with(func(s *AppxSpec) { s.Sizes = []int{65537} }), "size-64KiB+1-deflate", true),
 		mkAppx(with(func(s *AppxSpec) { s.Sizes = []int{1<<20 + 1}; s.Mode = "stored" }), "size-1MiB+1-stored", true),
